@@ -1,8 +1,92 @@
 package main
 
+import (
+	"go/ast"
+	"strings"
+)
+
 // regenerated facts of the "hashring" family (C18 C19 C20 C21 C27)
 
 func init() { families = append(families, factsHashring) }
 
+// innerFor returns the first for statement (not range) nested in body whose condition contains substr.
+func innerFor(b ast.Node, substr string) *ast.ForStmt {
+	var res *ast.ForStmt
+	if b == nil {
+		return nil
+	}
+	ast.Inspect(b, func(n ast.Node) bool {
+		if res != nil {
+			return false
+		}
+		if f, ok := n.(*ast.ForStmt); ok && f.Cond != nil && strings.Contains(text(f.Cond), substr) {
+			res = f
+			return false
+		}
+		return true
+	})
+	return res
+}
+
+// skeleton flattens a block into control statements and statements mentioning `ident`:
+// "if:<cond>", "return", "continue", "break", and the text of inc/dec and assignments to ident.
+func skeleton(b *ast.BlockStmt, ident string) []string {
+	var out []string
+	if b == nil {
+		return out
+	}
+	for _, st := range b.List {
+		switch s := st.(type) {
+		case *ast.IfStmt:
+			out = append(out, "if:"+text(s.Cond))
+			out = append(out, skeleton(s.Body, ident)...)
+			if eb, ok := s.Else.(*ast.BlockStmt); ok {
+				out = append(out, "else")
+				out = append(out, skeleton(eb, ident)...)
+			}
+		case *ast.ReturnStmt:
+			out = append(out, "return")
+		case *ast.BranchStmt:
+			out = append(out, s.Tok.String())
+		case *ast.IncDecStmt:
+			if strings.Contains(text(s.X), ident) {
+				out = append(out, text(s))
+			}
+		case *ast.AssignStmt:
+			if len(s.Lhs) == 1 && text(s.Lhs[0]) == ident {
+				out = append(out, text(s))
+			}
+		case *ast.ForStmt:
+			out = append(out, "for:"+text(s.Cond))
+			out = append(out, skeleton(s.Body, ident)...)
+		case *ast.RangeStmt:
+			out = append(out, "range:"+text(s.X))
+			out = append(out, skeleton(s.Body, ident)...)
+		}
+	}
+	return out
+}
+
 func factsHashring() {
+	f := parse("pkg/receive/hashring.go")
+
+	// ---- C19 / C18: shape of the replica loop of calculateSectionReplicas
+	csr := fn(f, "", "calculateSectionReplicas")
+	loop := innerFor(body(csr), "len(replicas)")
+	cond, lap := "unknown", "unknown"
+	var skel []string
+	if loop != nil {
+		cond = text(loop.Cond)
+		skel = skeleton(loop.Body, "skipped")
+		if len(loop.Body.List) > 0 {
+			if is, ok := loop.Body.List[0].(*ast.IfStmt); ok {
+				lap = text(is.Cond)
+			}
+		}
+	}
+	emitStr("ketamaLoopCond", "pkg/receive/hashring.go calculateSectionReplicas: condition of the replica loop", cond)
+	emitStr("ketamaLapCheck", "pkg/receive/hashring.go calculateSectionReplicas: condition of the first statement of the replica loop (lap check)", lap)
+	emitList("ketamaSkipCounter", "pkg/receive/hashring.go calculateSectionReplicas: control skeleton of the replica loop and every use of the skip counter", skel)
+	emitStr("ketamaTooFew", "pkg/receive/hashring.go newKetamaHashring: the endpoint-count test",
+		firstIfCond(body(fn(f, "", "newKetamaHashring")), "replicationFactor"))
 }
